@@ -55,6 +55,9 @@ pub struct Config {
     pub updaters: Vec<Vec<u64>>,
     pub readers: usize,
     pub bound: Option<u32>,
+    /// all threads use ONE GuestMemoryAtomic handle through a shared reference (no clone of the
+    /// handle exists anywhere) instead of one cloned handle per thread
+    pub share_handle: bool,
 }
 
 /// Addresses that are unmapped at the end of `log` (a later mmap may reuse an address).
@@ -100,7 +103,10 @@ fn execute(cfg: &Config, ex: &mut Explorer) -> ExecResult {
     global_recording(true);
     let r0 = region(0x10_0000, 1);
     let mut all_regions: Vec<(u64, usize, u8)> = vec![(0x10_0000, r0.as_ptr() as usize, 1)];
-    let atomic: Atomic = GuestMemoryAtomic::new(GuestMemoryMmap::from_arc_regions(vec![r0]).unwrap());
+    let atomic: Arc<Atomic> = Arc::new(GuestMemoryAtomic::new(GuestMemoryMmap::from_arc_regions(vec![r0]).unwrap()));
+    let share = cfg.share_handle;
+    // per thread: the shared handle itself, or a clone of it
+    let handle_for_thread = |a: &Arc<Atomic>| -> Arc<Atomic> { if share { a.clone() } else { Arc::new(Atomic::clone(a)) } };
     let log: Arc<Mutex<Vec<Log>>> = Arc::new(Mutex::new(Vec::new()));
     let mut bodies: Vec<ThreadBody> = Vec::new();
     let mut tid = 0usize;
@@ -123,7 +129,7 @@ fn execute(cfg: &Config, ex: &mut Explorer) -> ExecResult {
             final_tag.insert(start, tag);
             regs.push((if s & SWAP != 0 { Some(start) } else { None }, Some(r)));
         }
-        let a = atomic.clone();
+        let a = handle_for_thread(&atomic);
         let lg = log.clone();
         let me = tid;
         bodies.push(Box::new(move || {
@@ -151,7 +157,7 @@ fn execute(cfg: &Config, ex: &mut Explorer) -> ExecResult {
         tid += 1;
     }
     for _ in 0..cfg.readers {
-        let a = atomic.clone();
+        let a = handle_for_thread(&atomic);
         let lg = log.clone();
         let me = tid;
         bodies.push(Box::new(move || {
@@ -295,7 +301,7 @@ fn run_config(ctx: &Ctx, cfg: &Config) {
             sample = Some(json!({"config": cfg.name, "schedule": ex.current_choices(), "trace": r.trace, "outcome": r.outcome}));
         }
         if let Some((k, d)) = r.violation {
-            ctx.fail(&format!("C11/{}/{}", cfg.name, k), &d, json!({"config": cfg.name, "updaters": cfg.updaters, "readers": cfg.readers, "schedule": ex.current_choices(), "trace": r.trace}));
+            ctx.fail(&format!("C11/{}/{}", cfg.name, k), &d, json!({"config": cfg.name, "updaters": cfg.updaters, "readers": cfg.readers, "share_handle": cfg.share_handle, "schedule": ex.current_choices(), "trace": r.trace}));
             return false;
         }
         true
@@ -605,12 +611,12 @@ fn trivial_address_spaces(ctx: &Ctx) {
 
 pub fn run(tier: Tier, replay: Option<String>) -> i32 {
     let ctx = crate::new_ctx("C11", tier, "model_checking", &replay);
-    ctx.set_rule("E3: stateless DFS over the interleavings, within the stated preemption bound, of real updater threads (lock; memory(); derive a map with one more / one less region or with one region swapped for a fresh one of the same range; replace; unlock) and reader threads (memory(); read regions and tags; clone the snapshot; into_inner; drop; re-read; drop) on one GuestMemoryAtomic<GuestMemoryMmap> shared through cloned handles; scheduling points: every ArcSwap load/store and Mutex lock/unlock of the crate (hook H3, blocking on the update mutex modelled) plus the harness steps between a reader's operations. Oracle per schedule: every snapshot is exactly one published map (maps compared as lists of (start, region instance)), readable (tags through the mappings), unchanged when re-read; snapshots taken after a replacement completed show it; the final map contains every updater's region; no deadlock; after all handles are dropped every region was munmap'ed exactly once (interposed log). E1: BFS over all sequential histories up to the stated depth of {clone handle, drop handle, snapshot, clone snapshot, into_inner, drop snapshot/owned, lock+replace with insert/remove/swap (same range, fresh region)}, state = (current map, held snapshots, owned maps, handles), with the owner-graph invariant mapped <=> reachable checked against the interposed munmap log in every state.");
+    ctx.set_rule("E3: stateless DFS over the interleavings, within the stated preemption bound, of real updater threads (lock; memory(); derive a map with one more / one less region or with one region swapped for a fresh one of the same range; replace; unlock) and reader threads (memory(); read regions and tags; clone the snapshot; into_inner; drop; re-read; drop) on one GuestMemoryAtomic<GuestMemoryMmap> shared through cloned handles, or (three configurations) through one handle that all threads use by reference; scheduling points: every ArcSwap load/store and Mutex lock/unlock of the crate (hook H3, blocking on the update mutex modelled) plus the harness steps between a reader's operations. Oracle per schedule: every snapshot is exactly one published map (maps compared as lists of (start, region instance)), readable (tags through the mappings), unchanged when re-read; snapshots taken after a replacement completed show it; the final map contains every updater's region; no deadlock; after all handles are dropped every region was munmap'ed exactly once (interposed log). E1: BFS over all sequential histories up to the stated depth of {clone handle, drop handle, snapshot, clone snapshot, into_inner, drop snapshot/owned, lock+replace with insert/remove/swap (same range, fresh region)}, state = (current map, held snapshots, owned maps, handles), with the owner-graph invariant mapped <=> reachable checked against the interposed munmap log in every state.");
     ctx.assume("ArcSwap::load/store are treated as atomic steps (arc_swap internals execute for real but are not interleaved internally); SC");
     if let Some(r) = ctx.replay_of.clone() {
         let c = &r["case"];
         let updaters: Vec<Vec<u64>> = c["updaters"].as_array().map(|a| a.iter().map(|u| u.as_array().map(|x| x.iter().filter_map(|y| y.as_u64()).collect()).unwrap_or_default()).collect()).unwrap_or_default();
-        let cfg = Config { name: "replay", updaters, readers: c["readers"].as_u64().unwrap_or(1) as usize, bound: None };
+        let cfg = Config { name: "replay", updaters, readers: c["readers"].as_u64().unwrap_or(1) as usize, bound: None, share_handle: c["share_handle"].as_bool().unwrap_or(false) };
         let choices: Vec<u32> = c["schedule"].as_array().map(|a| a.iter().filter_map(|x| x.as_u64().map(|x| x as u32)).collect()).unwrap_or_default();
         let mut ex = Explorer::for_replay(&choices);
         ex.begin();
@@ -623,16 +629,20 @@ pub fn run(tier: Tier, replay: Option<String>) -> i32 {
     }
     let thorough = tier.thorough();
     let configs = vec![
-        Config { name: "1-updater-1-reader", updaters: vec![vec![0x20_0000]], readers: 1, bound: None },
-        Config { name: "2-updaters", updaters: vec![vec![0x20_0000], vec![0x30_0000]], readers: 0, bound: None },
-        Config { name: "2-updaters-1-reader", updaters: vec![vec![0x20_0000], vec![0x30_0000]], readers: 1, bound: Some(if thorough { 5 } else { 2 }) },
-        Config { name: "1-updater-2-rounds-2-readers", updaters: vec![vec![0x20_0000, 0x30_0000]], readers: 2, bound: Some(if thorough { 4 } else { 2 }) },
+        Config { name: "1-updater-1-reader", updaters: vec![vec![0x20_0000]], readers: 1, bound: None, share_handle: false },
+        Config { name: "2-updaters", updaters: vec![vec![0x20_0000], vec![0x30_0000]], readers: 0, bound: None, share_handle: false },
+        Config { name: "2-updaters-1-reader", updaters: vec![vec![0x20_0000], vec![0x30_0000]], readers: 1, bound: Some(if thorough { 5 } else { 2 }), share_handle: false },
+        Config { name: "1-updater-2-rounds-2-readers", updaters: vec![vec![0x20_0000, 0x30_0000]], readers: 2, bound: Some(if thorough { 4 } else { 2 }), share_handle: false },
         // the first region is removed while readers hold snapshots that still contain it
-        Config { name: "insert-then-remove-vs-reader", updaters: vec![vec![0x20_0000, REMOVE | 0x10_0000]], readers: 1, bound: if thorough { None } else { Some(3) } },
+        Config { name: "insert-then-remove-vs-reader", updaters: vec![vec![0x20_0000, REMOVE | 0x10_0000]], readers: 1, bound: if thorough { None } else { Some(3) }, share_handle: false },
+        // one handle shared by reference between all threads (nobody holds a clone of it)
+        Config { name: "2-updaters-one-shared-handle", updaters: vec![vec![0x20_0000], vec![0x30_0000]], readers: 0, bound: None, share_handle: true },
+        Config { name: "2-updaters-1-reader-one-shared-handle", updaters: vec![vec![0x20_0000], vec![0x30_0000]], readers: 1, bound: Some(if thorough { 4 } else { 2 }), share_handle: true },
+        Config { name: "updater-2-rounds-vs-updater-one-shared-handle", updaters: vec![vec![0x20_0000, REMOVE | 0x10_0000], vec![0x30_0000]], readers: 0, bound: Some(if thorough { 5 } else { 3 }), share_handle: true },
         // same layout, new memory: the replacement must be published like any other
-        Config { name: "swap-region-vs-reader", updaters: vec![vec![SWAP | 0x10_0000]], readers: 1, bound: None },
-        Config { name: "insert-then-swap-vs-2-readers", updaters: vec![vec![0x20_0000, SWAP | 0x20_0000]], readers: 2, bound: Some(if thorough { 3 } else { 2 }) },
-        Config { name: "inserter-and-remover-vs-reader", updaters: vec![vec![0x20_0000], vec![0x30_0000, REMOVE | 0x10_0000]], readers: 1, bound: Some(if thorough { 4 } else { 2 }) },
+        Config { name: "swap-region-vs-reader", updaters: vec![vec![SWAP | 0x10_0000]], readers: 1, bound: None, share_handle: false },
+        Config { name: "insert-then-swap-vs-2-readers", updaters: vec![vec![0x20_0000, SWAP | 0x20_0000]], readers: 2, bound: Some(if thorough { 3 } else { 2 }), share_handle: false },
+        Config { name: "inserter-and-remover-vs-reader", updaters: vec![vec![0x20_0000], vec![0x30_0000, REMOVE | 0x10_0000]], readers: 1, bound: Some(if thorough { 4 } else { 2 }), share_handle: false },
     ];
     for cfg in &configs {
         run_config(&ctx, cfg);
